@@ -300,6 +300,7 @@ func runC11(c *core.Ctx) core.Meta {
 	prov := core.NewProv(c)
 	pd := NewPkgInfo(c, driverPkg)
 	checkLaunchPathsMarkDirty(c, "R11.16", pd)
+	checkDirtyMarkUnconditional(c, "R11.17")
 	checkLocalRangeOfGPU(c, "R11.15", NewPkgInfo(c, tconfigPkg), NewPkgInfo(c, r9nanoPkg), NewPkgInfo(c, mi300aPkg))
 	pc := NewPkgInfo(c, cpPkg)
 	pe := NewPkgInfo(c, "amd/emu")
